@@ -127,7 +127,7 @@ def partitions(tier, seed):
     for m in spec.METHODS:
         if q and m['name'] not in QUICK_CLASSES:
             continue
-        parts.append(_method_step(m, tl, 200 if q else 900))
+        parts.append(_method_step(m, tl, 200 if q else 480))
     parts.append(Part('step_heartbeat', [('ch', 'int'), ('t', 'bytes')], ['0 <= ch <= 65535', 'len(t) == 8'],
                       'def body(ch, t):\n    return step(hx.buf([8, ch // 256, ch % 256, 0, 0, 0, 0, 0xCE]), t, 8)\n',
                       PRE, 100, family='step_fixed', bound='heartbeat on any channel + 8 arbitrary bytes',
@@ -167,7 +167,7 @@ def partitions(tier, seed):
                                 table_classes=[], table_tags=[], timeout=150)
     else:
         env = buffers.parts_for('c06', tier, raw_max=16, m_extra=(2, 5, 8), hdr_extra=(2, 3, 4),
-                                table_classes=[], table_tags=[], timeout=900)
+                                table_classes=[], table_tags=[], timeout=480)
     for p in env:
         p.name = 'env_' + p.name
     parts += env
